@@ -30,6 +30,10 @@ def targeted(extras):
         out.append(g(body)); out.append(g(body, "", '"b"', "", '_{ " " }'))
     for body in ['SOI ~ "a" ~ EOI', '"a"* ~ EOI', 'ANY ~ ANY?', "'a'..'é' ~ ^\"B\"", '"é" | "e"', '!"a" ~ ANY | "a" ~ "b"', '&b ~ ANY', '(!("a" | "b") ~ ANY)* ~ "a"', '"a"{2,3} ~ b{,2}']:
         out.append(g(body)); out.append(g(body, "@", '"b"', "$", '_{ " " }')); out.append(g(body, "$", '"b" ~ "a"?', "", '{ " " }'))
+    for mod in ["", "_", "@", "$", "!"]:
+        for bmod in ["", "@", "$"]:
+            out.append(f'a = {{ "a" ~ b ~ "a" }}\nb = {{ "b" }}\nblank = {bmod}{{ " " | "\\t" }}\nWHITESPACE = {mod}{{ blank+ }}')
+            out.append(f'a = {{ "a" ~ b* }}\nb = ${{ "b" ~ "b"? }}\nhash = {bmod}{{ "#" }}\nCOMMENT = {mod}{{ hash ~ b? }}')
     if extras:
         out += gramgen.extras_systematic()
     return out
@@ -109,7 +113,7 @@ def nat_view(rep):
 def run_one(ctx, extras):
     known, _ = load_known("C02")
     N = int(os.environ.get("VERIF_C02_N", "3" if ctx.quick else "5"))
-    count = int(os.environ.get("VERIF_C02_GRAMMARS", "150" if ctx.quick else "1200"))
+    count = int(os.environ.get("VERIF_C02_GRAMMARS", "300" if ctx.quick else "1200"))
     import random
     tg = targeted(extras); random.Random(ctx.seed).shuffle(tg)
     gs = tg[:count // 2] + [g for g in gramgen.family(ctx.seed, count, extras=extras) if g not in tg][:count - min(len(tg), count // 2)]
